@@ -142,7 +142,7 @@ func runStage(r *vf.Run, p stagePlan) {
 		}
 	}
 	for restarts := 0; next < p.cases; restarts++ {
-		if restarts > 6 {
+		if restarts > 6+p.cases/3 {
 			r.Inconclusive(fmt.Sprintf("stage %s: too many child restarts, cases from %d not run", p.stage, next))
 			return
 		}
@@ -159,6 +159,9 @@ func runStage(r *vf.Run, p stagePlan) {
 		switch {
 		case ex.TimedOut:
 			r.Inconclusive(fmt.Sprintf("stage %s: child watchdog fired in case %d", p.stage, begun))
+			if begun < next {
+				begun = next
+			}
 			next = begun + 1
 		case cleanExit(ex) && !stopped:
 			return // all cases done
